@@ -81,6 +81,11 @@ CHECKS = {
         "of <= 3/4 characters x widths x fill characters; count on all bounded closed trees with recursive needles: verdict = documented relation, replacements satisfy it and are valid trees.",
    note="Trusted: Python int(s,8)/ljust/rjust/slicing as reference. [decoder]. Outside: longer arguments, just without crop on too-long arguments (asserted), tar checksum.",
    design="§3 C20"),
+ "C11": dict(level="other", technique="CrossHair (z3): solver-driven exhaustive enumeration of terminal strings over the escape-relevant alphabet; real unparse_grammar/parse_bnf round trip with exact language comparison",
+   text=BOUNDED + "Every terminal string of <= 2/3 characters over 21 escape-relevant characters (quote, backslash, control characters, '<', '>', NUL, non-ASCII, the letters of the escape tokens) placed into 3 grammar skeletons: "
+        "the printed grammar is accepted again, is identical when no terminal contains '<', and every original nonterminal derives exactly the same (finite) language.",
+   note="Trusted: language enumeration in the harness. [decoder] (the ANTLR parser cannot be executed symbolically). Outside: longer terminals, other characters, recursive grammars.",
+   design="§3 C11"),
 }
 NOT_APPLICABLE = {
  "C21": "needs end-to-end solve() on the shipped formalizations plus external validators (docutils, XML parser): the solver loop is a heap algorithm around Z3 calls that no engine here can encode, and the validators are not solver objects",
